@@ -588,6 +588,25 @@ pub fn run(cfg: &Cfg, rep: &mut Report, mode: &Mode2) {
             }
         }
     }
+    // arrays built along every provenance path, then run-time type tests whose bodies use the elements at the tested type
+    for (idx, text) in crate::optyping::provenance_type_test_programs().iter().enumerate() {
+        if !cfg.owns(idx as u64) {
+            continue;
+        }
+        let m = run_text(text, FUEL);
+        if matches!(m.outcome, Outcome::Rejected(..)) {
+            ctx.rep.count("optyping:provenance-type-test:rejected");
+            continue;
+        }
+        ctx.rep.count("optyping:provenance-type-test:accepted");
+        for (key, what) in ctx.absorb("optyping-provenance-type-test", text, &m) {
+            if ctx.want(&key) {
+                ctx.emit(&key, &what, text);
+            } else {
+                ctx.rep.count(&format!("further:{}", truncate(&key, 80)));
+            }
+        }
+    }
     // loops used for their value, exits in unusual positions
     for (idx, (text, _)) in crate::optyping::loop_value_programs().iter().enumerate() {
         if !cfg.owns(idx as u64) {
